@@ -141,7 +141,7 @@ theorem decrease_inv (h h' : Heap) (rc : Nat)
     cases hr
     have h1 := siftUp_handles key rc h h.a.size rc (Nat.le_refl _) hrc
       (fun i j x _ _ a b => hd i j x a b) (fun i x _ a => hp i x a)
-    have h3 := siftUp_ordered key true rc h h.a.size rc (Nat.le_refl _) (Nat.le_refl _) hex hg
+    have h3 := siftUp_ordered key true rc h h.a.size rc (Nat.le_refl _) (by omega) hex hg
     have hs := siftUp_size key true rc h rc
     apply inv_of_prefix
     · rw [hs]; exact h1.1
